@@ -98,6 +98,17 @@ def diff_attrs(a, b):
     return sorted(k for k in set(fa) | set(fb) if fa.get(k) != fb.get(k))
 
 
+def changed_existing_attrs(pre, post):
+    """attributes that existed before and have another value afterwards (lazily created attributes do not count)"""
+    old = F.MODE["fdigits"]
+    F.MODE["fdigits"] = 10
+    try:
+        fa, fb = F.attr_fps(pre), F.attr_fps(post)
+    finally:
+        F.MODE["fdigits"] = old
+    return sorted(k for k in fa if k in fb and fa[k] != fb[k])
+
+
 def _val(o, path):
     for p in path.split("."):
         o = getattr(o, p, None)
@@ -129,6 +140,13 @@ def check_subject(acc, subj, budget, rng_mode, b, tier, rseed):
                           {"exc": str(e)[:60], "chunk_gt1": len(chunk) > 1}, rep(h2), size)
             return False
         _, idx, ut = res
+        if len(chunk) == 0:
+            # nothing was observed: nothing may be granted and the state may not move
+            ch = changed_existing_attrs(pre, post)
+            if len(np.asarray(idx).ravel()) or ch:
+                acc.violation(subj.name, "empty_chunk_changes_state", "query/update of an empty chunk returned %s and changed %s [history %s]" % (
+                    list(np.asarray(idx).ravel()), ch[:4], [c for c, _ in h2]), wit, {}, rep(h2), size)
+            return False
         for kind, detail in judge_indices(idx, ut, len(chunk)):
             acc.violation(subj.name, kind, detail + " [history %s]" % [c for c, _ in h2], wit, {}, rep(h2), size)
         acc.outcome((subj.name, budget, n, tuple(int(i) for i in np.asarray(idx).ravel())))
@@ -246,6 +264,10 @@ def replay(spec):
                 out.append((subj.name, "exception_in_%s:%s" % (res[1], type(e).__name__)))
                 return
             _, idx, ut = res
+            if len(chunk) == 0:
+                if len(np.asarray(idx).ravel()) or changed_existing_attrs(pre, post):
+                    out.append((subj.name, "empty_chunk_changes_state"))
+                return
             for kind, _d in judge_indices(idx, ut, len(chunk)):
                 out.append((subj.name, kind))
             if spec.get("as_list") or subj.name in SS.BASELINES:
